@@ -14,6 +14,39 @@ RULES = {1: 'level>3', 2: 'L0/L1 length below minimum', 3: 'L0/L1 checksum', 4: 
          10: 'common CRC', 11: 'file without name', 12: 'directory without path'}
 
 
+def presence_bases():
+    """The name / path presence rules over their whole matrix: level x OS type x method x recorded size x name present x path
+    present x permission kind.  Most of these are NOT well-formed; they are judged as given (and mutated like the others)."""
+    from ..lhamodel.crc16 import crc16
+    out = []
+    for lvl in (1, 2, 3, 0):
+        for os_t in (b'U', b'A', b'M', b'K', b'\0', b'm'):
+            for method in (b'-lh0-', b'-lhd-', b'-lh5-', b'-lz4-'):
+                for size in (0, 1):
+                    for has_name in (0, 1):
+                        for has_path in (0, 1):
+                            for perms in (None, 0o40755, 0o120777, 0o100644):
+                                if lvl == 0 and (os_t != b'U' or perms not in (None, 0o40755)):
+                                    continue
+                                if perms == 0o100644 and os_t not in (b'U', b'A'):
+                                    continue
+                                data = b'x' * size if method in (b'-lh0-', b'-lz4-') else b''
+                                m = dict(level=lvl, method=method, size=size, crc=crc16(data), data=data, os=os_t[0])
+                                if lvl in (0, 1):
+                                    m['dostime'] = H.unix_to_dos(1000000000)
+                                    m['name'] = (b'p/' if has_path else b'') + (b'n' if has_name else b'') if lvl == 0 else (b'n' if has_name else b'')
+                                    if lvl == 1:
+                                        m['exts'] = ([(2, b'p\xff')] if has_path else []) + ([(0x50, H.u16(perms))] if perms is not None else [])
+                                    elif perms is not None:
+                                        m['area'] = b'U\0' + H.u32(1000000000) + H.u16(perms) + H.u16(0) + H.u16(0)
+                                else:
+                                    m['time'] = 1000000000
+                                    m['exts'] = ([(1, b'n')] if has_name else []) + ([(2, b'p\xff')] if has_path else []) + \
+                                                ([(0x50, H.u16(perms))] if perms is not None else [])
+                                out.append(m)
+    return out
+
+
 def bases(rnd, n):
     out = []
     # directed: one of each level with and without a common-CRC header, a directory, a symlink
@@ -105,6 +138,13 @@ def run(ctx):
         ctx.hist('bases_by_level', m['level'])
         if m['level'] and any(t == 0 for t, _ in m.get('exts', [])):
             ctx.hist('bases_with_common_crc', m['level'])
+    # the name / path presence matrix: judged as given (hlen 0 = no substitutions), every 9th one also fully mutated
+    pb = presence_bases()
+    for i, m in enumerate(pb):
+        hdr, _ = H.build_header(m)
+        arc = hdr + m['data'] + second + b'\0'
+        files[i % nsh].write(struct.pack('<II', len(hdr) if i % 9 == 0 else 0, len(arc)) + arc)
+    ctx.cov['name_path_presence_matrix_headers'] = len(pb)
     for f in files:
         f.close()
 
